@@ -62,6 +62,15 @@ static inline int m_dwarf_nextcu(void *dw, unsigned long off, unsigned long *nex
       }
   return 1;
 }
+static char g_dwarf_obj;
+static inline Dwarf_Die *m_dwarf_diecu(Dwarf_Die *d, Dwarf_Die *r, void *a, void *b)
+{
+  int i = die_index(d);
+  for (unsigned k = 0; k < NN; ++k) { if (g_par[i] < 0) break; i = g_par[i]; }
+  set_die(r, i);
+  return r;
+}
+static inline void *m_dwarf_cu_getdwarf(void *cu) { return &g_dwarf_obj; }
 static inline void m_throw_libdw(void) { verif_raised = 3; }
 #ifdef C02_DWIT
 static inline all_dies_iterator all_dies_iterator_copy(const all_dies_iterator *p) { return *p; }   /* the vector model is an inline array: struct copy is a deep copy */
